@@ -42,7 +42,9 @@ Outcome(K, c) ==
                           ELSE [exc |-> "KeyError"]          \* as coded: a state added through DiGraph.add_node/add_edge has no label entry
     [] c.op = "add_node" -> IF c.v \in K.S THEN [exc |-> "RuntimeError"] ELSE [ret |-> "none"]
     [] c.op = "add_edge" -> IF <<c.s, c.d>> \in K.R THEN [exc |-> "RuntimeError"] ELSE [ret |-> "none"]
-    [] c.op = "label_add" -> IF c.v \in DOMAIN K.L THEN [ret |-> "none"] ELSE [exc |-> (IF c.v \in K.S THEN "KeyError" ELSE "RuntimeError")]
+    [] c.op = "label_add" -> IF c.v \notin K.S THEN [exc |-> "RuntimeError"] ELSE IF c.v \in DOMAIN K.L THEN [ret |-> "none"] ELSE [exc |-> "KeyError"]
+    \* replace_labelling_function(L) returns the FORMER labelling function (the dict object itself)
+    [] c.op = "relabel" -> [ret |-> K.L]
     [] c.op = "next"   -> IF c.v \in K.S THEN [ret |-> SuccIn(K.R, c.v)] ELSE [exc |-> "RuntimeError"]
     [] c.op = "states" -> [ret |-> K.S]
     [] c.op = "transitions" -> [ret |-> K.R]
@@ -56,9 +58,12 @@ MakesObject(op) == op \in {"clone", "sub"}
 Effect(K, c) ==
   CASE c.op = "add_node" /\ c.v \notin K.S -> [K EXCEPT !.S = @ \cup {c.v}]
     [] c.op = "add_edge" /\ <<c.s, c.d>> \notin K.R -> [K EXCEPT !.S = @ \cup {c.s, c.d}, !.R = @ \cup {<<c.s, c.d>>}]
-    [] c.op = "label_add" /\ c.v \in DOMAIN K.L -> [K EXCEPT !.L = [@ EXCEPT ![c.v] = @ \cup {c.a}]]
+    [] c.op = "label_add" /\ c.v \in K.S /\ c.v \in DOMAIN K.L -> [K EXCEPT !.L = [@ EXCEPT ![c.v] = @ \cup {c.a}]]
+    \* replace_labelling_function(L): the caller's dict BECOMES the labelling function (missing states are added to it with
+    \* an empty set; keys that are not states stay in it, and labels() - "all labels" - then reports their atoms too)
+    [] c.op = "relabel" -> [K EXCEPT !.L = [s \in K.S \cup DOMAIN c.L |-> IF s \in DOMAIN c.L THEN c.L[s] ELSE {}]]
     [] OTHER -> K
-IsMutator(op) == op \in {"add_node", "add_edge", "label_add"}
+IsMutator(op) == op \in {"add_node", "add_edge", "label_add", "relabel"}
 
 Init == pool = <<>> /\ hist = <<>> /\ args = <<>>
 \* constructor arguments are chosen component by component (keeps simulation cheap)
@@ -80,12 +85,14 @@ Call(g, c) == /\ g \in Live /\ args = <<>>
               /\ LET o == Outcome(pool[g], c) IN
                  /\ pool' = IF MakesObject(c.op) /\ "ret" \in DOMAIN o THEN Put(pool, FreeId, o.ret)
                             ELSE IF IsMutator(c.op) THEN Put(pool, g, Effect(pool[g], c)) ELSE pool
-                 /\ hist' = Append(hist, c @@ [g |-> g] @@ (IF MakesObject(c.op) THEN [new |-> FreeId] ELSE <<>>))
+                 /\ hist' = Append(hist, (IF c.op = "relabel" THEN [op |-> "relabel", Lkv |-> {<<s, c.L[s]>> : s \in DOMAIN c.L}] ELSE c)
+                                          @@ [g |-> g] @@ (IF MakesObject(c.op) THEN [new |-> FreeId] ELSE <<>>))
               /\ UNCHANGED args
 Drop(g) == /\ g \in Live /\ args = <<>> /\ pool' = [x \in Live \ {g} |-> pool[x]]
            /\ hist' = Append(hist, [op |-> "drop", g |-> g]) /\ UNCHANGED args
 MutCalls == IF Mutators THEN {[op |-> "add_node", v |-> v] : v \in Nodes} \cup {[op |-> "add_edge", s |-> a, d |-> b] : a \in Nodes, b \in Nodes}
                            \cup {[op |-> "label_add", v |-> v, a |-> a] : v \in Nodes, a \in AP}
+                           \cup {[op |-> "relabel", L |-> L] : L \in UNION {[D -> SUBSET AP] : D \in SUBSET Nodes}}
             ELSE {}
 Calls == MutCalls \cup {[op |-> "sub", X |-> X] : X \in SUBSET Nodes}
          \cup {[op |-> o, v |-> v] : o \in {"labels", "next"}, v \in Nodes}
